@@ -109,12 +109,13 @@ def tablegen_regen(ck):
     scratch = tempfile.mkdtemp(prefix="c12-tablegen-")     # outside the repository under verification and outside the verification tree
     for d in ("asmjit", "db", "tools"):
         shutil.copytree(os.path.join(repo, d), os.path.join(scratch, d))
-    rc, out, err = vlib.sh(["node", "tablegen-x86.js"], cwd=os.path.join(scratch, "tools"), timeout=300)
-    if rc != 0:
-        shutil.rmtree(scratch, ignore_errors=True)
-        return None, "tablegen-x86.js failed: %s" % (err[-500:] or out[-500:])
+    for gen_js in ("tablegen-x86.js", "tablegen-a64.js"):
+        rc, out, err = vlib.sh(["node", gen_js], cwd=os.path.join(scratch, "tools"), timeout=300)
+        if rc != 0:
+            shutil.rmtree(scratch, ignore_errors=True)
+            return None, "%s failed: %s" % (gen_js, err[-500:] or out[-500:])
     diffs = []
-    for root, _d, files in os.walk(os.path.join(scratch, "asmjit", "x86")):
+    for root, _d, files in os.walk(os.path.join(scratch, "asmjit")):
         for f in files:
             if f.endswith(".backup"):
                 continue
@@ -192,11 +193,10 @@ def gen_files(T, cases):
     rm_bad = [c for c in cases if not c["cover_bad"] and c["rm_bad"]]
     cover_bad = [c for c in cases if c["cover_bad"]]
     files = {"C12_X86RwTables.v": G.tables_v(T)}
-    n = len(ok)
-    per = (n + SHARDS_OK - 1) // SHARDS_OK if n else 1
+    import zlib
     names = []
-    for k in range(SHARDS_OK):
-        part = ok[k * per:(k + 1) * per]
+    for k in range(SHARDS_OK):      # sharded by mnemonic, so that a change of a few instructions leaves most shards (and their .vo) untouched
+        part = [c for c in ok if zlib.crc32(c["form"]["name"].encode()) % SHARDS_OK == k]
         names.append(str(k))
         files["C12_X86Cases_%d.v" % k] = G.cases_file("x86_cases_%d" % k, [c["line"] for c in part],
                                                      [("covered", "case_covered x86_tables"), ("rm_ok", "case_rm_ok x86_tables"),
@@ -316,7 +316,7 @@ def host_exec(ck, cases):
         if x[0] != 1:
             continue
         if f.get("implicit_omitted"):
-            skipped["implicit-omitted call shape (finding C12/implicit-omitted)"] += 1
+            skipped["implicit call shape (implicit registers cannot be reported)"] += 1
             continue
         if f["volatile"] or f["control"] != "none" or f["privilege"] != "L3" or not set(f["category"]) <= EXEC_CATEGORIES or f["name"] in EXEC_DENY:
             skipped["volatile / control-flow / privileged / state / x87-MMX-AMX form"] += 1
@@ -461,8 +461,26 @@ def regen_parallel(ck, files, timeout=1500):
     os.makedirs(wgen)
     for p in glob.glob(os.path.join(gen, "*.v")):
         shutil.copy(p, wgen)
+    # files identical to the snapshot keep their compiled .vo when everything they import is unchanged too (tables for the case shards)
+    def same(n):
+        p = os.path.join(gen, n)
+        return os.path.exists(p) and open(p).read() == files[n]
+
+    def vo_fresh(n):
+        v, vo = os.path.join(gen, n), os.path.join(gen, n + "o")
+        return os.path.exists(vo) and os.path.getmtime(vo) >= os.path.getmtime(v)
+    tables_same = {"x86": same("C12_X86RwTables.v") and vo_fresh("C12_X86RwTables.v"), "a64": same("C12_A64Tables.v") and vo_fresh("C12_A64Tables.v")}
+    reuse = set()
+    for n in files:
+        fam = "a64" if "A64" in n else "x86"
+        if n.endswith("Cover.v"):
+            continue
+        if tables_same[fam] and same(n) and vo_fresh(n):
+            reuse.add(n)
     for n, t in files.items():
         open(os.path.join(wgen, n), "w").write(t)
+    for n in reuse:
+        shutil.copy(os.path.join(gen, n + "o"), os.path.join(wgen, n + "o"))
     args = ["-Q", os.path.join(vlib.COQ, "theories"), "Verif", "-Q", wgen, "VerifGen", "-w", "-all"]
     mine = sorted(files)
     stages = [[n for n in mine if n.endswith("Tables.v")],
@@ -471,6 +489,8 @@ def regen_parallel(ck, files, timeout=1500):
     failed, log = [], ""      # other properties' generated files are not needed by Properties_C12.v and are left alone
 
     def one(n):
+        if n in reuse:
+            return n, 0, ""
         rc, out, err = vlib.sh(["coqc"] + args + [os.path.join(wgen, n)], cwd=wgen, timeout=timeout)
         return n, rc, (out + err)[-3000:]
     for stage in stages:
@@ -502,6 +522,22 @@ def replay(ck, impl, model_of, forms, T):
             exps, rf, wf, er, mg, rmc = G.expectations(f, x)
             print(" oracle:", G.judge(exps, rf, wf, er, mg, G.parse_answer(a)) or "covers the database")
     return 0
+
+
+def generate(ck):
+    """the translator run alone (used by tools/c12_snapshot.py): {file name: text}, summary"""
+    impl = ck.build_harness("c12", ["c12_harness.cpp"])
+    T = G.parse_dump(vlib.sh([impl, "dump"], timeout=120, inp="")[1])
+    forms = G.load_db(vlib.sh(["node", os.path.join(vlib.VERIF, "tools", "c12_db.js"), vlib.REPO], timeout=120)[1])
+    cands, answers, cases, unsupported = build_cases(forms, T, impl, ck)
+    files, ok, rm_bad, cover_bad = gen_files(T, cases)
+    TA, a64_forms, a64_cands, a64_cases, a64_unsupported = build_a64(ck, impl)
+    files["C12_A64Tables.v"] = G.a64_tables_v(TA)
+    files["C12_A64Cases.v"] = G.a64_cases_file([c["line"] for c in a64_cases if not c["bad"]], [c["line"] for c in a64_cases if c["bad"]])
+    acc = build_a64_access(ck, impl, TA)
+    files["C12_A64Access.v"] = G.a64_access_file([c["line"] for c in acc[2] if not c["bad"]], [c["line"] for c in acc[2] if c["bad"]])
+    return files, {"x86 cases": len(cases), "ok": len(ok), "rm_bad": len(rm_bad), "cover_bad": len(cover_bad),
+                   "feat_bad": len([c for c in cases if c["feat_bad"]]), "a64 list": len(a64_cases), "a64 access": len(acc[2])}
 
 
 def run(ck):
@@ -540,7 +576,9 @@ def run(ck):
         ck.notes.append("coq/gen regenerated for this run (working tree differs from the committed snapshot)")
         if failed:
             ck.coq_log = getattr(ck, "coq_log", "") + log
-    obl = ck.coq_properties(gen_dir=gen_dir, timeout=1500)
+    # three property files so that a broken reflection lemma of one family does not take the other theorems down with it
+    obl = ck.coq_properties(timeout=1500) + ck.coq_properties(module="Properties_C12_X86", gen_dir=gen_dir, timeout=1500) + \
+        ck.coq_properties(module="Properties_C12_A64", gen_dir=gen_dir, timeout=1500)
     ck.log("theorems: %d, failed: %d" % (len(obl), len([o for o in obl if not o["ok"]])))
 
     def model_of():
@@ -558,7 +596,7 @@ def run(ck):
                             {"command": G.cmd_of(c["cand"]), "impl": c["raw"], "form": c["form"]["idx"], "cand": list(c["cand"])}):
                 n_viol += 1
         for (j, why) in c["rm_bad"]:
-            key = G.case_key(c["form"], c["cand"], j) + "/rm"
+            key = G.case_key(c["form"], c["cand"], j) + "/regmem"
             if ck.violation(key, "%s %s: %s (validator on the substituted tuple: %s)" % (c["form"]["name"], " ".join(c["cand"][4]), why,
                                                                                        {1: "accepts", 0: "refuses"}.get(c["ans"]["impl"].get("s%d" % j), "n/a")),
                             {"command": G.cmd_of(c["cand"]), "impl": c["raw"], "form": c["form"]["idx"], "cand": list(c["cand"])}):
@@ -629,12 +667,13 @@ def run(ck):
         ck.violation("C12/tablegen/failed", detail, {"broken": "tools/tablegen-x86.js does not run"}, no_input=True)
     elif diffs:
         ck.violation("C12/tablegen/" + ",".join(os.path.basename(d) for d in diffs),
-                     "generated sections of %s differ from what tools/tablegen-x86.js produces from db/isa_x86.json:\n%s" % (diffs, detail),
-                     {"files": diffs, "diff": detail, "broken": "committed tables = tablegen(database)"}, no_input=True)
+                     "generated sections of %s differ from what tools/tablegen-x86.js (from db/isa_x86.json) / tools/tablegen-a64.js (from the INST rows) "
+                     "produce:\n%s" % (diffs, detail),
+                     {"files": diffs, "diff": detail, "broken": "committed tables = tablegen(database / INST rows), x86 and a64"}, no_input=True)
 
     for o in ck.proof_failures():
         ck.violation("C12/proof/" + o["name"], "theorem %s no longer checks (%s)" % (o["name"], getattr(ck, "coq_log", "")[-800:]),
-                     {"broken": "theorem " + o["name"], "file": "coq/theories/Properties/Properties_C12.v"}, no_input=True)
+                     {"broken": "theorem " + o["name"], "file": "coq/theories/Properties/Properties_C12*.v"}, no_input=True)
 
     nontrivial = set()
     for c in cases:
